@@ -173,6 +173,7 @@ def c11_units(tier):
         Unit("validate-vs-spec", hs, "zzC11_Validate_T2", {"loop": 40, "rec": 3}, bounds="plan documents with <=2 tasks, <=2 after entries each, every title/body present or absent, blank or not, equal or distinct; hasPlanCycle's recursion unwound to depth 3 with unwinding assertions"),
         Unit("run-plan", hs, "zzC11_Run_T2", {"loop": 40, "rec": 3, "stubs": "hasCycle=zzHasCycleSpec,hasPlanCycle=zzPlanCycleSpec", "only": "C11/,C16/"}, note="hasCycle / hasPlanCycle replaced by their summaries (checked by C07 hasCycle-vs-spec and by validate-vs-spec)", bounds="store of 2 items + 1 pruned id; plan of <=2 tasks with <=1 after entry each; parse error or not; lock busy or free"),
     ]
+    us.append(Unit("plan-all-or-nothing", ["c10.go", "c11.go", "c03.go"], "zzC04_PlanAtomic", {"loop": 40, "rec": 3, "stubs": "hasCycle=zzHasCycleSpec,hasPlanCycle=zzPlanCycleSpec,sortedKeys=zzSortedKeysCut", "only": "C11/"}, note="file model with symbolic crash point (see C03/C04)", bounds="clean log of <=1 event; plan of 1 task; killed at any effect index; stale temp file possible"))
     if tier == "thorough":
         us.append(Unit("validate-vs-spec-t3", hs, "zzC11_Validate_T3", {"loop": 40, "rec": 4, "_wall": 7000}, bounds="<=3 tasks, <=2 after entries each"))
         us.append(Unit("run-plan-a2", hs, "zzC11_Run_T2A2", {"loop": 40, "rec": 3, "stubs": "hasCycle=zzHasCycleSpec,hasPlanCycle=zzPlanCycleSpec", "only": "C11/,C16/", "_wall": 7000}, bounds="plan of <=2 tasks with <=2 after entries each"))
@@ -218,3 +219,42 @@ def c04_units(tier):
 reg("C04", c04_units,
     "bounded symbolic model checking of multi-event commands on the file model: the process is killed between any two of its system calls and the replayed state must equal the state before or the state after the command.",
     FS_ASSUME)
+
+
+# ---------------------------------------------------------------- C13 / C02 / C01
+def c13_units(tier):
+    return [Unit("reader-during-" + n.lower(), HSFS, "zzC13_During" + n, dict(FSFLAGS, only="C13/"),
+                 bounds="clean log of <=2 events (<=1 for the rewriting commands); the writer has performed an arbitrary prefix of its atomic system calls when the reader (real loadGraph: getEventsPath, readEvents with its newline probe, replay) runs")
+            for n in ("NewTask", "Claim", "Compact", "Plan")]
+
+
+reg("C13", c13_units,
+    "bounded symbolic model checking on the file model: the reader's view is the file after an arbitrary prefix of the writer's system calls (a symbolic integer), for an appending writer (1 and 2 events), compact and plan; the real reader must succeed and show the old state, the new state or - for appends - a prefix of the appended events.",
+    FS_ASSUME + ["a reader's scan sees the file as of one instant (A2); a reader overlapping several writers reduces to this case because writers are serialised by the lock (C02)"])
+
+C02_CMDS = ["NewTask", "Claim", "Compact", "Plan", "Sequence", "Prune", "Set"]
+
+
+def c02_units(tier):
+    return [Unit("lock-discipline-" + n.lower(), HSFS, "zzC02_" + n, dict(FSFLAGS, only="C02/"),
+                 bounds="clean log of <=1 event; every argument symbolic; lock busy or free at every attempt; all paths of the command") for n in C02_CMDS]
+
+
+reg("C02", c02_units,
+    "solver-checked lock discipline of every mutating command on the real code over the system-call model: all writes/truncates/renames of the log and all reads that feed them lie inside a flock section whose flag word (evaluated from the source) is LOCK_EX|LOCK_NB; a failed attempt writes nothing. Serializability of whole commands then follows from the kernel's mutual exclusion of LOCK_EX holders (assumed, A1/A5) for single-section commands; the multi-section commands are the C10 known findings.",
+    FS_ASSUME + ["two-process interleavings are not enumerated or encoded: mutual exclusion of flock(LOCK_EX) holders is the kernel's contract (assumption), the solver decides that the code stays inside that contract on every path",
+                 "structural obligations (labels '/struct:') are reported from the solver's model without native staging"])
+
+
+def c01_units(tier):
+    f = dict(STUB)
+    f["only"] = "C01/,C08/"
+    return [
+        Unit("claim-oldest-ready", HSCMD, "zzCmd_ClaimOldest", f, bounds=CMD_BOUNDS + "; --epic filter any id"),
+        Unit("lock-discipline-claim", HSFS, "zzC02_Claim", dict(FSFLAGS, only="C02/"), bounds="claim on the file model: read, choice and both writes inside one LOCK_EX|LOCK_NB section"),
+    ]
+
+
+reg("C01", c01_units,
+    "bounded symbolic model checking of one claimer from an arbitrary store: the task handed out is ready by the manual's definition, the oldest such in scope, ends doing and claimed by the caller, 'no ready' only when the ready set is empty, lock busy writes nothing; plus the lock discipline of claim (load, choose and write inside one exclusive non-blocking section). At-most-one hand-out across concurrent claimers follows from mutual exclusion of the sections (kernel assumption).",
+    FS_ASSUME + ["concurrent claimers are not interleaved symbolically; see C02"])
